@@ -24,6 +24,20 @@ def make_field(fam, periodic, variant=0):
     from droplets import DiffuseDroplet, Emulsion
 
     s = 0.17 * variant
+    if variant >= 3 and periodic and fam in ("cart1", "cart2", "cart3"):
+        # one droplet sits on the periodic seam, a hair to the left or to the right of it: the candidate (centre of mass
+        # of its cells, exactly on the seam) and the fitted centre can lie on opposite sides of the boundary
+        off = [0.02, -0.02, 0.3, -0.3][(variant - 3) % 4]
+        if fam == "cart1":
+            g = CartesianGrid([[0, 32]], 32, periodic=True)
+            ds = [DiffuseDroplet([off], 3, 1.0), DiffuseDroplet([16.0], 4, 1.0)]
+        elif fam == "cart2":
+            g = CartesianGrid([[0, 24], [0, 20]], [24, 20], periodic=[True, False])
+            ds = [DiffuseDroplet([off, 10.0], 3.5, 1.0), DiffuseDroplet([12.0, 10.0], 4, 1.0)]
+        else:
+            g = CartesianGrid([[0, 12], [0, 12], [0, 20]], [12, 12, 20], periodic=[False, True, True])
+            ds = [DiffuseDroplet([6.0, 6.0, off], 3, 1.0), DiffuseDroplet([6.0, 6.0, 10.0], 3.5, 1.0)]
+        return Emulsion(ds).get_phasefield(g), 2
     if fam == "cart1":
         g = CartesianGrid([[0, 32]], 32, periodic=periodic)
         ds = [DiffuseDroplet([8.0 + s], 3, 1.0), DiffuseDroplet([22.0], 4, 1.0)]
@@ -126,6 +140,8 @@ def _chunk(items):
     for idx, rec in items:
         try:
             fails = run_request(rec, idx % 3)
+            if rec["req"]["periodic"] and rec["req"]["refine"] and rec["req"]["fam"] in ("cart1", "cart2", "cart3") and rec["pc"] != "raised":
+                fails = fails + [f"seam droplet: {f}" for f in run_request(rec, 3 + idx % 4)]
         except Exception as exc:  # noqa: BLE001
             fails = [f"inspection of the result raised {type(exc).__name__}: {exc}"]
         if fails:
